@@ -38,7 +38,15 @@ impl Family for C03Family {
         let faulty = index % 2 == 1;
         let concurrent = faulty && r.chance(1, 3);
         // the shipped single-slot store now and then (the map store ignores the RP ID: C05's finding)
-        let backend = if !concurrent && r.chance(1, 8) { Backend::Slot } else { Backend::Ref };
+        // ... and the shipped map store in 1 run of 10, judged only on what does not depend on its listed
+        // findings (it ignores the RP ID): signature, client data, rpIdHash of the *requested* RP, user handle
+        let backend = if !concurrent && r.chance(1, 8) {
+            Backend::Slot
+        } else if !concurrent && r.chance(1, 9) {
+            Backend::Memory
+        } else {
+            Backend::Ref
+        };
         let opts = HistOpts { faults: faulty, concurrent, backend, weights: [3, 5, 1, 3], min_ops: 2, ..Default::default() };
         let c = gen_history(&mut r, &opts);
         Scenario { family: "C03".into(), batch: if faulty { "faults" } else { "strict" }.into(), seed: master, index, body: Body::Ceremony(c) }
@@ -48,7 +56,7 @@ impl Family for C03Family {
         let c = ceremony_of(scn);
         let rec = run_and_measure(c, stats);
         let mut j = Judge::new("C03", scn, &rec);
-        for p in ["assertion_with_credential_registered_in_run", "assertion_with_allow_list_subset", "assertion_without_allow_list", "no_eligible_credential_with_consent", "assertion_succeeded_under_faults", "caller_supplied_hash", "same_user_handle_on_two_rps"] {
+        for p in ["assertion_with_credential_registered_in_run", "assertion_with_allow_list_subset", "assertion_without_allow_list", "no_eligible_credential_with_consent", "assertion_succeeded_under_faults", "caller_supplied_hash", "same_user_handle_on_two_rps", "map_store_served_another_rps_credential"] {
             stats.declare_probe(p);
         }
         if rec.panic.is_some() || rec.outcome != Outcome2::Done {
@@ -56,7 +64,8 @@ impl Family for C03Family {
             return Vec::new();
         }
         let db = RpDb::build(c, &rec);
-        let strict = scn.batch == "strict" && c.actors.len() == 1;
+        let map_store = c.backend == Backend::Memory;
+        let strict = scn.batch == "strict" && c.actors.len() == 1 && !map_store;
         let mut sig = crate::rng::Fnv::new();
         let mut any = false;
         for o in &rec.ops {
@@ -70,6 +79,10 @@ impl Family for C03Family {
             if o.result.is_ok() {
                 any = true;
                 for (clause, detail) in verify_assertion(&db, o, kind) {
+                    if map_store && clause == "auth-foreign-credential" {
+                        stats.probe("map_store_served_another_rps_credential");
+                        continue;
+                    }
                     j.fail(clause, format!("op a{}#{}: {detail}", o.actor, o.idx));
                 }
                 // the id names a credential the store holds for that RP; handle is the stored one
@@ -78,7 +91,7 @@ impl Family for C03Family {
                 match stored {
                     None => j.fail("auth-unknown-credential", format!("op a{}#{}: returned id {} is not in the store", o.actor, o.idx, crate::model::hex(&id))),
                     Some(s) => {
-                        if s.rp_id != rp {
+                        if s.rp_id != rp && !map_store {
                             j.fail("auth-foreign-credential", format!("op a{}#{}: the store holds credential {} for {:?}, the ceremony ran for {rp:?}", o.actor, o.idx, crate::model::hex(&id), s.rp_id));
                         }
                         let returned_handle = match &o.result {
